@@ -164,6 +164,7 @@ struct MachineConfig {
   bool inter = false;       // follow callsites into callee CFGs (else havoc outputs)
   bool record_events = true;
   long magnitude_bits = 120; // beyond: outside the model
+  bool remake_outside = false; // KF47 neutraliser (see machine.cpp, make_ref)
 };
 
 class Machine {
